@@ -4,7 +4,7 @@ use common::Args;
 
 fn main() {
     // silence panic backtraces of caught panics; messages are recorded by the harness
-    if std::env::var("WWVERIF_DEBUG").is_err() && std::env::var("WWVERIF_PANICS").is_err() { std::panic::set_hook(Box::new(|_| {})); }
+    if std::env::var("WWVERIF_DEBUG").is_err() && std::env::var("WWVERIF_PANICS").is_err() && std::env::var("VERIF_SHOW_PANICS").is_err() { std::panic::set_hook(Box::new(|_| {})); }
     let a: Vec<String> = std::env::args().collect();
     if a.len() < 2 { eprintln!("usage: wwverif <property> [--seed S] [--n N] [--out DIR] [--tier T] [--replay FILE]"); std::process::exit(2); }
     let mut args = Args { seed: 1, n: 100, out: "out".into(), replay: None, tier: "quick".into() };
